@@ -6,7 +6,7 @@
    (complex numbers are pairs of reals).  The gate theorems depend on the standard
    library's real-number axioms only; the tracker and cache theorems are closed. *)
 From Coq Require Import Reals List Arith Bool ZArith Permutation String.
-From QV Require Import Base.Sums C07.CMat C07.Ctrl C07.GatesGen C07.GateProofs C07.Model C07.Proofs C07.TrackerG C07.Mutators C07.Inventory C07.LightconeModel C07.Lightcone C07.RecordModel C07.Record.
+From QV Require Import Base.Sums C07.CMat C07.Ctrl C07.GatesGen C07.GateProofs C07.Model C07.Proofs C07.TrackerG C07.Mutators C07.Inventory C07.LightconeModel C07.Lightcone C07.RecordModel C07.Record C07.IdCacheModel C07.IdCache C07.IdCacheSites.
 Import ListNotations.
 Close Scope R_scope.
 Open Scope nat_scope.
@@ -247,6 +247,54 @@ Theorem C07_uncovered_mutator_gives_stale_hit :
 Proof. exact uncovered_mutator_stale. Qed.
 Print Assumptions C07_uncovered_mutator_gives_stale_hit.
 
+(* ---- (3c) caches keyed by the IDENTITY of an object (id(G)): key / liveness discipline ---------- *)
+(* model: coq/C07/IdCacheModel.v - a heap whose allocator may hand out ANY address not occupied by a live
+   object and free any object nothing refers to; simulators of one family (a circuit and its copies) share one
+   dict keyed by address; gates are accepted (array kept in _gates) or rejected after the conversion *)
+
+(* every use of id() found in the circuit modules (regenerated inventory, C07/IdCacheSites.v) stores the object
+   itself next to its id: the key cannot outlive the object it names *)
+Theorem C07_idcache_sites_store_their_key_object : forallb site_pins idkey_sites = true.
+Proof. vm_compute. reflexivity. Qed.
+Print Assumptions C07_idcache_sites_store_their_key_object.
+
+(* the code as it stands (the entry stores the original array): for EVERY history of allocations, dropped
+   references, frees, copies, dropped simulators, accepted and rejected gates - and every allocator - the array
+   returned for G is the conversion of G, hit or miss *)
+Theorem C07_idcache_pinned_entries_fresh : forall conv evs s' outs,
+  irun conv true iinit evs = Some (s', outs) -> Forall (fun o => o_ans o = o_want o) outs.
+Proof. exact idcache_fresh_pinned. Qed.
+Print Assumptions C07_idcache_pinned_entries_fresh.
+
+(* general form: an entry that does NOT store its key object is still safe on histories without dropped
+   simulators and without rejected gates (the _gates list of a live simulator keeps every converted array alive)
+   - the only histories the library's own tests exercise *)
+Theorem C07_idcache_fresh_without_drops_and_rejections : forall conv pin evs s' outs,
+  forallb (gentle pin) evs = true -> irun conv pin iinit evs = Some (s', outs) ->
+  Forall (fun o => o_ans o = o_want o) outs.
+Proof. exact idcache_fresh_gentle. Qed.
+Print Assumptions C07_idcache_fresh_without_drops_and_rejections.
+
+(* the key object of a pinning entry cannot be freed while the entry lives *)
+Theorem C07_idcache_pinned_object_never_freed : forall conv s a s' o,
+  pinned a (cache s) = true -> istep conv true s (IGc a) <> Some (s', o).
+Proof. exact pinned_never_freed. Qed.
+Print Assumptions C07_idcache_pinned_object_never_freed.
+
+(* pinning is necessary: without it a short-lived copy, or a gate rejected after the conversion, followed by a
+   fresh array at the recycled address gives a HIT that returns the conversion of the dead array *)
+Theorem C07_idcache_unpinned_entry_gives_stale_hit : forall evs, evs = stale_by_copy \/ evs = stale_by_rejection ->
+  exists s' outs o, irun (fun z => z) false iinit evs = Some (s', outs) /\ In o outs
+                    /\ o_hit o = true /\ o_ans o <> o_want o.
+Proof. exact unpinned_stale. Qed.
+Print Assumptions C07_idcache_unpinned_entry_gives_stale_hit.
+
+(* ... and the same two histories cannot happen when entries pin (the allocator may not reuse the address) *)
+Theorem C07_idcache_pinning_blocks_recycling :
+  irun (fun z => z) true iinit stale_by_copy = None /\ irun (fun z => z) true iinit stale_by_rejection = None.
+Proof. exact pinned_blocks_recycling. Qed.
+Print Assumptions C07_idcache_pinning_blocks_recycling.
+
 Example C07_examples :
   perm_trace [0; 1; 2; 3] [[0; 3]; [2]; [1; 2]; [3; 0]] = [[0; 3; 1; 2]; [0; 3; 1; 2]; [0; 3; 1; 2]; [0; 3; 1; 2]]
   /\ perm_trace_g [0; 1; 2; 3] [{| pg_swap := false; pg_ctrl := []; pg_qubits := [0; 3] |};
@@ -259,5 +307,8 @@ Example C07_examples :
   /\ q_marginal 3 [1] [(0, 1); (2, 0)] 0 1 = [KPsi 0 1]
   /\ q_marginal 3 [2] [(0, 1)] 0 1 = [KRdm [0; 2] 0 1]
   /\ map e_hit (snd (run init_st [Query (q_psi 0 0); Query (q_psi 0 0); Mut {| m_world := true; m_append := 1; m_clear := false |}; Query (q_psi 0 0)]))
-     = [false; true; false].
+     = [false; true; false]
+  /\ option_map (fun r => map (fun o => (o_hit o, o_ans o)) (snd r))
+       (irun (fun z => z) true iinit [IAlloc 7 1; ICopy 0; IApply 1 7 true; IDrop 1; IDropUser 7; IAlloc 8 2; IApply 0 8 false; IApply 0 8 true])
+     = Some [(false, 1%Z); (false, 2%Z); (true, 2%Z)].
 Proof. vm_compute. repeat split. Qed.
